@@ -117,6 +117,13 @@ theorem calendar_monotone (z1 z2 : Int) (h : z1 ≤ z2) :
     yearOf z1 ≤ yearOf z2 ∧ (yearOf z1 = yearOf z2 → monthOf z1 ≤ monthOf z2) ∧ daysFromCivil (yearOf z1) 1 1 ≤ z1 :=
   ⟨yearOf_mono z1 z2 h, monthOf_mono z1 z2 h, jan1_le z1⟩
 
+/-- The calendar model is a bijection between day numbers and civil dates with month 1..12, day 1..31: the date of
+a day number determines it (so distinct days never share (year, month, day), for all integers). -/
+theorem calendar_round_trip (z : Int) :
+    daysFromCivil (civilFromDays z).1 (civilFromDays z).2.1 (civilFromDays z).2.2 = z ∧
+    1 ≤ (civilFromDays z).2.1 ∧ (civilFromDays z).2.1 ≤ 12 ∧ 1 ≤ (civilFromDays z).2.2 ∧ (civilFromDays z).2.2 ≤ 31 :=
+  daysFromCivil_civilFromDays z
+
 /-- What holds for ANY mix of zone offsets: if the snapshots carry the civil fields of their own `Zoned`
 (`CivilOk`) and the list is newest-first by LOCAL wall-clock time, equal period keys are adjacent, for all
 eight period rules. -/
